@@ -11,6 +11,7 @@ package c05
 import (
 	"fmt"
 	"sort"
+	"strings"
 
 	"go.uber.org/mock/gomock"
 	v1 "k8s.io/api/core/v1"
@@ -63,29 +64,106 @@ type Trace struct {
 	seen     int // number of recorder calls already attributed
 }
 
-// reopenWithDepartments replaces the session of cycle.Build (every queue under the
-// one department "dept") by a session over the same nodes and pod groups whose
-// leaf queues sit under the departments of depts (queue -> department; each
-// department unlimited, created in order of first mention). The queue list
-// order stays the creation order of the queues. The recorder of cycle.Build is
-// re-wired onto the new session's cache.
-func reopenWithDepartments(b *cycle.Built, c cycle.Cluster, depts map[string]string) {
-	meta := test_utils.TestTopologyBasic{Name: "gen", DisableDefaultDepartment: true,
-		Mocks: &test_utils.TestMock{CacheRequirements: &test_utils.CacheMocking{NumberOfCacheBinds: 1 << 20, NumberOfCacheEvictions: 1 << 20, NumberOfPipelineActions: 1 << 20}}}
+// innerQueue is a queue of the hierarchy that is not a leaf of the cluster (cycle.Cluster.Queues
+// lists the leaf queues only): a department or any queue between a top-level queue and a leaf.
+type innerQueue struct {
+	Name      string
+	Deserved  float64 // GPUs; < 0: unlimited
+	OverQuota float64
+	Priority  int
+	Dept      bool // built as a test_utils department (top-level, unlimited, over-quota weight = deserved); else as a queue
+}
+
+// qtree is the queue hierarchy of a case: an arbitrary parent map (queue -> parent, any depth) over
+// the leaf queues of the cluster and the inner queues. A queue without an entry (or with "") is
+// top-level.
+type qtree struct {
+	Parent map[string]string
+	Inner  []innerQueue // creation order (created after the leaf queues)
+}
+
+// deptTree: every leaf queue under the department of depts (default "dept"), each department
+// unlimited and top-level, created in order of first mention.
+func deptTree(c cycle.Cluster, depts map[string]string) *qtree {
+	t := &qtree{Parent: map[string]string{}}
 	seen := map[string]bool{}
 	for _, q := range c.Queues {
 		d := depts[q.Name]
 		if d == "" {
 			d = "dept"
 		}
+		t.Parent[q.Name] = d
 		if !seen[d] {
 			seen[d] = true
-			meta.Departments = append(meta.Departments, test_utils.TestDepartmentBasic{Name: d,
-				DeservedGPUs: common_info.NoMaxAllowedResource, MaxAllowedGPUs: common_info.NoMaxAllowedResource})
+			t.Inner = append(t.Inner, innerQueue{Name: d, Deserved: -1, Dept: true})
+		}
+	}
+	return t
+}
+
+// chain: q and its ancestors, leaf first.
+func (t *qtree) chain(q string) []string {
+	var out []string
+	for q != "" && len(out) < 64 {
+		out = append(out, q)
+		q = t.Parent[q]
+	}
+	return out
+}
+
+// describe: every queue as root>...>queue(des=deserved), leaf queues first.
+func (t *qtree) describe(c cycle.Cluster) string {
+	des := map[string]float64{}
+	for _, q := range c.Queues {
+		des[q.Name] = q.Deserved
+	}
+	for _, q := range t.Inner {
+		des[q.Name] = q.Deserved
+	}
+	var parts []string
+	for _, q := range c.Queues {
+		ch := t.chain(q.Name)
+		var names []string
+		for i := len(ch) - 1; i >= 0; i-- {
+			d := "unlimited"
+			if des[ch[i]] >= 0 {
+				d = fmt.Sprintf("%g", des[ch[i]])
+			}
+			names = append(names, fmt.Sprintf("%s(des=%s)", ch[i], d))
+		}
+		parts = append(parts, strings.Join(names, ">"))
+	}
+	return strings.Join(parts, " | ")
+}
+
+// reopenWithTree replaces the session of cycle.Build (every queue under the one department
+// "dept") by a session over the same nodes and pod groups whose queues form the hierarchy t:
+// the leaf queues of the cluster and the inner queues of t, each under its parent of t.Parent
+// (arbitrary depth; top-level queues have no parent). Inner queues marked Dept are built as
+// test_utils departments, the others as ordinary queues with a ParentQueue. The leaf queues keep
+// the creation order of the cluster's queue list; inner queues are created after them. The
+// recorder of cycle.Build is re-wired onto the new session's cache.
+func reopenWithTree(b *cycle.Built, c cycle.Cluster, t *qtree) {
+	meta := test_utils.TestTopologyBasic{Name: "gen", DisableDefaultDepartment: true,
+		Mocks: &test_utils.TestMock{CacheRequirements: &test_utils.CacheMocking{NumberOfCacheBinds: 1 << 20, NumberOfCacheEvictions: 1 << 20, NumberOfPipelineActions: 1 << 20}}}
+	for _, q := range c.Queues {
+		prio := q.Priority
+		meta.Queues = append(meta.Queues, test_utils.TestQueueBasic{Name: q.Name, ParentQueue: t.Parent[q.Name], DeservedGPUs: q.Deserved,
+			MaxAllowedGPUs: q.Limit, GPUOverQuotaWeight: q.OverQuota, Priority: &prio})
+	}
+	for _, q := range t.Inner {
+		des := q.Deserved
+		if des < 0 {
+			des = common_info.NoMaxAllowedResource
+		}
+		if q.Dept {
+			meta.Departments = append(meta.Departments, test_utils.TestDepartmentBasic{Name: q.Name,
+				DeservedGPUs: des, MaxAllowedGPUs: common_info.NoMaxAllowedResource})
+			continue
 		}
 		prio := q.Priority
-		meta.Queues = append(meta.Queues, test_utils.TestQueueBasic{Name: q.Name, ParentQueue: d, DeservedGPUs: q.Deserved,
-			MaxAllowedGPUs: q.Limit, GPUOverQuotaWeight: q.OverQuota, Priority: &prio})
+		meta.Queues = append(meta.Queues, test_utils.TestQueueBasic{Name: q.Name, ParentQueue: t.Parent[q.Name], DeservedGPUs: des,
+			GPUOverQuotaWeight: q.OverQuota, Priority: &prio})
 	}
 	queues := test_utils.BuildQueueInfoMap(meta)
 	for k, v := range test_utils.BuildDepartmentInfoMap(meta) {
@@ -105,14 +183,23 @@ func reopenWithDepartments(b *cycle.Built, c cycle.Cluster, depts map[string]str
 }
 
 // Setup builds the real session and installs the hooks.
-func Setup(c cycle.Cluster, cfg Config) (*cycle.Built, *Trace) { return SetupDepts(c, cfg, nil) }
+func Setup(c cycle.Cluster, cfg Config) (*cycle.Built, *Trace) { return SetupTree(c, cfg, nil) }
 
 // SetupDepts: as Setup, with the leaf queues under the given departments (nil:
 // the single department of cycle.Build).
 func SetupDepts(c cycle.Cluster, cfg Config, depts map[string]string) (*cycle.Built, *Trace) {
+	if depts == nil {
+		return SetupTree(c, cfg, nil)
+	}
+	return SetupTree(c, cfg, deptTree(c, depts))
+}
+
+// SetupTree: as Setup, with the session re-opened over the queue hierarchy t (nil: the single
+// department of cycle.Build).
+func SetupTree(c cycle.Cluster, cfg Config, t *qtree) (*cycle.Built, *Trace) {
 	b := cycle.Build(c)
-	if depts != nil {
-		reopenWithDepartments(b, c, depts)
+	if t != nil {
+		reopenWithTree(b, c, t)
 	}
 	ssn := b.Ssn
 	ssn.SchedulerParams.UseSchedulingSignatures = cfg.Sigs
